@@ -127,6 +127,27 @@ ADDED6 = {
     "C19": "C19.a/b/c: accumulated selections dedup and follow loading; an extra condition on the duplicate gate must follow from the duplicates; a class-level record of completed loads compared by identity with sys.modules is accepted.",
     "C20": "C20.d: a value remembered on the parameter object is keyed by every parameter the method reads.",
 }
+ADDED7 = {
+    "C01": "C01.i: every in-progress mark Command.run sets is taken back on every exit, normal or exceptional. C01.b answers 'cannot decide' for a release protocol; C01.a folds a one-attribute object() placeholder.",
+    "C02": "C02.i: no numeric argument is tested for truthiness in any execute body; C02.j: MeanToMid anchors its curve on the whole input; C02.b: no list argument is edited in place, no cached helper (lru_cache and the like) on an execute's path; C02.a concerns load-time lookups only.",
+    "C03": "C03.a: a return chosen by a test on an input's own statistic must cover that input's missing cells.",
+    "C04": "C04.e covers every consumer of results (writers and printers included); an unclamped return reachable only when every optional threshold is absent is 'cannot decide' (numerical).",
+    "C07": "C07.e: arithmetic commands write through no input array and edit no list argument; C07.c accepts a raw quotient whose non-finite cells are masked before it is returned, and numpy.ma.average for the weighted mean.",
+    "C08": "C08.l: conversions edit no value list they were given; C08.k: no bisection (searchsorted) over a table that nothing sorted.",
+    "C10": "C10.h: bounded enumeration (words of up to 5 characters over 9 letters) over the extracted token automata and grammar - a word re-spelled through a numeric token outside the number syntax recorded with the known finding is a new defect.",
+    "C11": "C11.h: no handler outside Command.run stores a line on an error it caught.",
+    "C12": "C12.h: the parser keeps no flag from one source to the next (per-parse EEMS 2.0 marker).",
+    "C13": "C13.f: attributes the validation pre-pass reads on referenced commands are plain data, or computed without recursion along references and without using a raw argument as a key before a kind test.",
+    "C14": "C14.h: no non-reentrant lock is held across run / execute / .result in Command. C14.b/c/d accept a guard relocated into ResultParameter.clean only as 'cannot decide', a sweep filtered or skipped on the finished flag, and an iterative reference walk with a test-stop-record guard.",
+    "C15": "C15.f: taint analysis over to_string and its nested helpers - text that already holds a serialised value is only inserted, never used as the format template, never rewritten by content.",
+    "C16": "C16.b: the surviving arguments are decided per argument name by abstract evaluation of the conversion loop; a result-name source carried over between commands is a violation.",
+    "C17": "C17.g: the writer reads every result before it opens its output; C17.h: no result cache on the reader's or writer's path.",
+    "C18": "C18.h: results are read before the output dataset is created; C18.i: no result cache; C18.e: automatic scaling / masking is never switched off for one side of the coordinate copy only; C18.a: a sign test on converted data is accepted only under a test admitting Positive Float alone.",
+    "C19": "C19.d: the library request is never tested for truthiness (a default may stand in for None only).",
+    "C20": "Engine D analyses NumberParameter also for the raw kind 'number' (a numbers.Number that is not int / float / bool): it must have an identity path (C20.c).",
+}
+for _k, _v in ADDED7.items():
+    CLAIMS[_k]["text"] += " " + _v
 for _k, _v in ADDED6.items():
     CLAIMS[_k]["text"] += " " + _v
 for _k, _v in ADDED5.items():
